@@ -465,3 +465,65 @@ func checkLaneIndexBounded(c *core.Ctx, pkgs []string) {
 		}
 	}
 }
+
+// checkInlineIntegerReadWhole (R03.48): an integer inline constant (-16..64) and the signed
+// immediates the decoders carry as IntOperand (the CDNA3 SMEM offset) are read as the
+// sign-extended 64-bit value, whatever the width of the operand slot: consumers of 32-bit
+// operands truncate for themselves, consumers that add in 64 bits (scalar memory addresses,
+// 64-bit ALU sources) rely on the extension. In the ReadOperand / ReadOperandBytes of both
+// register stores every conversion on the way from Operand.IntValue to the result keeps 64 bits.
+func checkInlineIntegerReadWhole(c *core.Ctx, pkgs []string) {
+	st := c.Rule("R03.48", "in ReadOperand and ReadOperandBytes of both register stores (emulation and timing wavefront) the value of an integer operand reaches the result through conversions that keep all 64 bits (int -> uint64): no conversion of Operand.IntValue, or of a value converted from it, to a type narrower than 64 bits on any path. A dword-wide read (uint32) of a negative inline constant or immediate makes a 64-bit consumer - the address of an s_load with a negative offset, a 64-bit source -1 - see 0x00000000FFFFFFFF", 4)
+	for _, rel := range pkgs {
+		for _, fn := range c.SrcFuncs(rel) {
+			if fn.Name() != "ReadOperand" && fn.Name() != "ReadOperandBytes" {
+				continue
+			}
+			for _, b := range fn.Blocks {
+				for _, in := range b.Instrs {
+					ld, ok := in.(*ssa.UnOp)
+					if !ok || ld.Op != token.MUL {
+						continue
+					}
+					f := core.LoadedField(ld)
+					if f == nil || f.Name() != "IntValue" {
+						continue
+					}
+					st.Instances++
+					c.MarkAnalysed(fn)
+					var bad ssa.Instruction
+					seen := map[ssa.Value]bool{}
+					var walk func(v ssa.Value, d int)
+					walk = func(v ssa.Value, d int) {
+						if d > 6 || seen[v] || v.Referrers() == nil {
+							return
+						}
+						seen[v] = true
+						for _, r := range *v.Referrers() {
+							switch x := r.(type) {
+							case *ssa.Convert:
+								if w, _, ok := typeWidth(x.Type()); ok && w < 64 {
+									if bad == nil {
+										bad = x
+									}
+									continue
+								}
+								walk(x, d+1)
+							case *ssa.ChangeType:
+								walk(x, d+1)
+							case *ssa.Phi:
+								walk(x, d+1)
+							}
+						}
+					}
+					walk(ld, 0)
+					st.Ob(bad == nil)
+					st.Sample("%s: Operand.IntValue reaches the result with all 64 bits: %v", core.FuncName(fn), bad == nil)
+					if bad != nil {
+						c.ReportAt("R03.48", fn, bad.Pos(), "inline-integer-truncated:"+core.FuncName(fn), core.FuncName(fn)+" narrows an integer operand's value to "+bad.(ssa.Value).Type().String()+" before returning it: a negative inline constant or signed immediate (a CDNA3 s_load with a negative byte offset, a 64-bit source -1) is read as 0x00000000FFFFFFFF by consumers that compute in 64 bits, and the scalar load goes 4 GiB astray")
+					}
+				}
+			}
+		}
+	}
+}
